@@ -29,6 +29,7 @@ func VerifSetup() {
 	}
 	// decoder side: compile the decoders of the harness target types once
 	Unmarshal([]byte(`{}`), &vcT{})
+	Unmarshal([]byte(`{}`), &vskT{})
 	Unmarshal([]byte(`{}`), &vdS2{})
 	Unmarshal([]byte(`{}`), &vkA{})
 	Unmarshal([]byte(`{}`), &vkB{})
